@@ -2,6 +2,7 @@
 
 use super::{std_accounts, Profile, WorldPlan};
 use crate::monitor::reply::{self, ReplyMonitors, Table};
+use crate::monitor::twin as twinmon;
 use crate::monitor::{deliveries, walk, Cells, Delivery, Finding};
 use crate::plan::{Code, Doc, Intent, Op, Plan};
 use crate::reg::Reg;
@@ -94,16 +95,30 @@ impl<'a> Gen<'a> {
                 Binary::from(serde_json::to_vec(&json!([v])).unwrap()),
                 Binary::from(serde_json::to_vec(&v).unwrap()),
             )
-        } else if r.payload.len() == 1 {
+        } else if r.payload.len() == 1 && r.payload[0].ty == "Pay" {
             let v = json!({"nonce": n, "script": s});
             (
                 Binary::from(serde_json::to_vec(&json!([v])).unwrap()),
                 Binary::from(serde_json::to_vec(&v).unwrap()),
             )
         } else {
-            let v = json!([n, self.rng.word(), s]);
-            let b = serde_json::to_vec(&v).unwrap();
-            (Binary::from(b.clone()), Binary::from(b))
+            // typed values by parameter type; several travel as one JSON array, a lone one bare
+            let pool = Pool { addrs: self.accounts };
+            let vals: Vec<Value> = r
+                .payload
+                .iter()
+                .map(|a| match a.ty {
+                    "Script" => s.clone(),
+                    "u64" => json!(n),
+                    other => gen_value(self.rng, other, &pool),
+                })
+                .collect();
+            let given = Binary::from(serde_json::to_vec(&Value::Array(vals.clone())).unwrap());
+            if vals.len() == 1 {
+                (given, Binary::from(serde_json::to_vec(&vals[0]).unwrap()))
+            } else {
+                (given.clone(), given)
+            }
         }
     }
 
@@ -122,6 +137,8 @@ impl<'a> Gen<'a> {
                 0 | 1 => None,
                 2 => Some(Binary::from(serde_json::to_vec(&gen_wrong(self.rng, ty)).unwrap())),
                 3 => Some(Binary::from(self.rng.bytes(5))),
+                // present, well-formed, and not a value of the type
+                4 => Some(Binary::from(b"null".to_vec())),
                 _ => Some(Binary::from(serde_json::to_vec(&gen_value(self.rng, ty, &pool)).unwrap())),
             },
             _ => match pick {
@@ -293,7 +310,7 @@ impl<'a> Gen<'a> {
         Send {
             msg,
             reply,
-            gas_limit: if self.rng.chance(1, 2) { Some(self.rng.below(1_000_000)) } else { None },
+            gas_limit: self.rng.gas_limit(),
         }
     }
 }
@@ -342,7 +359,8 @@ impl Profile for F3 {
     }
 
     fn gen_ops(&self, rng: &mut Rng, reg: &Reg, wp: &WorldPlan, base: &RunRecord) -> Vec<Op> {
-        let n = rng.range(1, 6 * crate::scale());
+        // now and then a long history (state kept across calls only shows late)
+        let n = if rng.chance(1, 2 * crate::LONG_RUN_ONE_IN) { rng.range(130, 170) } else { rng.range(1, 6 * crate::scale()) };
         let mut g = Gen {
             rng,
             reg,
@@ -449,7 +467,7 @@ impl Profile for F3 {
                         7 => {
                             let pool = Pool { addrs: &addrs };
                             let ty = *rng.pick(&["Pt", "String", "u64"]);
-                            let inner = serde_json::to_vec(&gen_value(rng, ty, &pool)).unwrap();
+                            let inner = if rng.chance(1, 4) { b"null".to_vec() } else { serde_json::to_vec(&gen_value(rng, ty, &pool)).unwrap() };
                             Fault::ReplyDataReplace(Binary::from(exec_envelope(Some(&inner))))
                         }
                         _ => {
@@ -475,5 +493,39 @@ impl Profile for F3 {
             }
         }
         all
+    }
+}
+
+// ------------------------------------------------------------------------------------ C06
+
+/// The same reply-table worlds and histories on the generated entry points (world 0) and on
+/// the reference deployment (world 1): the `reply` entry point forwards every id, payload and
+/// result to the dispatcher exactly like the reference does.
+pub struct ReplyTwin;
+
+impl Profile for ReplyTwin {
+    fn property(&self) -> &'static str {
+        "C06"
+    }
+    fn name(&self) -> &'static str {
+        "f3-entrypoint-twin"
+    }
+    fn gen_world(&self, rng: &mut Rng, reg: &Reg) -> WorldPlan {
+        let mut wp = F3 { prop: "C07" }.gen_world(rng, reg);
+        for c in wp.codes.iter_mut() {
+            c.flavour = 1;
+        }
+        wp.codes1 = wp.codes.iter().map(|c| Code { cid: c.cid.clone(), flavour: 0 }).collect();
+        wp.twin = true;
+        wp
+    }
+    fn gen_ops(&self, rng: &mut Rng, reg: &Reg, wp: &WorldPlan, base: &RunRecord) -> Vec<Op> {
+        F3 { prop: "C07" }.gen_ops(rng, reg, wp, base)
+    }
+    fn check(&self, plan: &Plan, rec: &RunRecord, reg: &Reg, cells: &mut Cells) -> Vec<Finding> {
+        let mut out = twinmon::check(plan, rec, "C06", false, cells);
+        out.extend(twinmon::check_overrides(rec, reg, cells));
+        out.extend(reply::check(rec, reg, &ReplyMonitors { c07: true, c08: true, c09: true }, cells));
+        out
     }
 }
